@@ -32,6 +32,8 @@ def _req(r):
         return "RGet " + _nats(r.get("idxs") or [])
     if k == "noop":
         return "RNoop"
+    if k == "panic":
+        return "RPanic"
     raise ck.Abort("C16: unknown abstract request kind %r" % k)
 
 
